@@ -497,16 +497,16 @@ func engParts(args []string) error {
 	meta.Rule = "case = data split by the real NewPartSetFromData, a receiver built from the (possibly mutated) header, an arrival sequence of genuine, duplicated and mutated parts, direct Verify calls and bare root computations; distinct = canonical JSON of the case; non-trivial = at least one part was rejected or duplicated or one non-genuine proof was checked"
 	var cases []PartsCase
 	if c.Replay != "" {
-		var pc PartsCase
-		if err := readJSON(c.Replay, &pc); err != nil {
+		var rc struct{ Case PartsCase `json:"case"` }
+		if err := readJSON(c.Replay, &rc); err != nil {
 			return err
 		}
-		cases = append(cases, pc)
+		cases = append(cases, rc.Case)
 	} else {
 		for _, f := range loadCorpus(corpus, nil) {
-			var pc PartsCase
-			if err := readJSON(f, &pc); err == nil {
-				cases = append(cases, pc)
+			var rc struct{ Case PartsCase `json:"case"` }
+			if err := readJSON(f, &rc); err == nil && rc.Case.PartSize > 0 {
+				cases = append(cases, rc.Case)
 				meta.Dist["corpus"]++
 			}
 		}
